@@ -175,6 +175,13 @@ class GitSandbox:
             f.write("b")
         _git(self.repo, "commit", "-q", "-am", "b")
         self.sha_b = _git(self.repo, "rev-parse", "HEAD")
+        # every branch gets a commit of its own, so that "the revision that was recorded" identifies the branch it was taken from
+        self.shas = []
+        for i in range(8):
+            with open(os.path.join(self.repo, "f"), "w") as f:
+                f.write(f"branch-commit-{i}")
+            _git(self.repo, "commit", "-q", "-am", f"c{i}")
+            self.shas.append(_git(self.repo, "rev-parse", "HEAD"))
         _git(self.repo, "checkout", "-q", "--detach", self.sha_a)
         del env
 
@@ -187,9 +194,11 @@ class GitSandbox:
         pk = os.path.join(g, "packed-refs")
         if os.path.exists(pk):
             os.remove(pk)
-        for b in branches:
+        self.branch_sha = {}
+        for i, b in enumerate(branches):
+            self.branch_sha[b] = self.shas[i % len(self.shas)]
             with open(os.path.join(g, "refs/heads", b), "w") as f:
-                f.write(self.sha_a + "\n")
+                f.write(self.branch_sha[b] + "\n")
         for t in tags:
             with open(os.path.join(g, "refs/tags", t), "w") as f:
                 f.write(self.sha_b + "\n")
@@ -247,6 +256,13 @@ def check_git(sb, branches, tags, version, res):
     ok = any(g == got or (g[0] == "tag" and got[0] == "tag") for g in exp)
     if err and err.startswith("unexpected"):
         ok = False
+    if ok and got[0] == "branch" and getattr(r, "revision", None) is not None and not sb.branch_sha[got[1]].startswith(str(r.revision)):
+        # the revision published for the other components of the race must be the one of the branch that was checked out
+        res.violation(
+            "git:revision-not-of-the-checked-out-branch",
+            f"git branches={list(branches)} version={version!r}: branch {got[1]} ({sb.branch_sha[got[1]][:10]}) checked out but revision {r.revision} recorded",
+            {"layer": 2, "branches": list(branches), "tags": list(tags), "version": version},
+        )
     res.case(
         case_repr={"git_branches": list(branches), "tags": list(tags), "version": version, "observed": list(got), "error": err}
         if res.sample_now(97)
